@@ -207,6 +207,8 @@ func cmdUHist(o *Out, line string, f []string) {
 			}
 		}
 	}
+	// payloads returned by Resolve stay what they were: they are kept (not copied) and compared with a copy at the end
+	var held, heldCopies [][]byte
 	for opIdx, op := range sec[2] {
 		wbOp := w.Len()
 		switch op[0] {
@@ -233,6 +235,10 @@ func cmdUHist(o *Out, line string, f []string) {
 				s, ok := render(out)
 				obs = append(obs, fmt.Sprintf("R%s[%s]", map[bool]string{true: "", false: "!"}[ok], s))
 				checkMeta(out, fmt.Sprintf("Resolve at op %d", opIdx))
+				if len(out) > 0 && len(held) < 64 {
+					held = append(held, out)
+					heldCopies = append(heldCopies, append([]byte{}, out...))
+				}
 			}
 		case 'z':
 			// samples pending now are discarded
@@ -266,6 +272,12 @@ func cmdUHist(o *Out, line string, f []string) {
 		checkMeta(out, "final Resolve")
 		s, ok := render(out)
 		final = fmt.Sprintf("%s[%s]", map[bool]string{true: "", false: "!"}[ok], s)
+	}
+	for i := range held {
+		if !bytes.Equal(held[i], heldCopies[i]) {
+			bad("bytes returned by an earlier Resolve were modified by a later operation on the collector", map[string]int{"resolve": i, "length": len(held[i])})
+			break
+		}
 	}
 	ws, wok := render(w.Bytes())
 	o.emit(line, fmt.Sprintf("%s final=%s writer=%s[%s]", strings.Join(obs, " "), final, map[bool]string{true: "", false: "!"}[wok], ws))
